@@ -116,7 +116,8 @@ def tlc(module, cfg=None, trace=None, workers=1, extra=None, timeout=1800, xmx="
     d, base = os.path.split(path)
     meta = os.path.join(BUILD, "tlc", "%d_%s_%s" % (os.getpid(), base.replace(".tla", ""), hashlib.md5((str(trace) + str(time.time())).encode()).hexdigest()[:8]))
     os.makedirs(meta, exist_ok=True)
-    jopts = "-DTLA-Library=%s:%s/mc:%s/trace -Xss1g -Xmx%s" % (SPEC, SPEC, SPEC, xmx)
+    # few GC threads: many single-worker validators run side by side
+    jopts = "-DTLA-Library=%s:%s/mc:%s/trace -Xss1g -Xmx%s -XX:ParallelGCThreads=%d" % (SPEC, SPEC, SPEC, xmx, max(2, min(int(workers), 8)))
     if deque:
         jopts += " -Dtlc2.tool.queue.IStateQueue=StateDeque"
     e = dict(os.environ)
